@@ -94,6 +94,11 @@ def _draw_layout(rng, *, max_features=12, min_samples=14, max_samples=30, allow_
         d["nan_features"] = rng.randint(1, 2)
     if allow_nan and rng.random() < 0.15 and not two_s:
         d["nan_samples"] = rng.randint(1, 2)
+    # at least three *valid* features must remain (two standardised features are the degenerate family)
+    if d.get("nan_features"):
+        d["nan_features"] = max(0, min(d["nan_features"], gen.n_features_total(d) - 3))
+        if not d["nan_features"]:
+            d.pop("nan_features")
     if attrs:
         def pick():
             # half of the draws from the hostile part of the catalogue (strings that look like literals)
